@@ -265,7 +265,9 @@ impl Property for C16 {
         }
         let _ = stranger;
         if case.seed % 7 == 5 {
-            upgrade_and_migrate(&env, &gw.id).map_err(|e| format!("setup: {}", e))?;
+            // (should the tree's migration take data, the owner names the approved messages)
+            let hints = MigHints { pairs: approvals.iter().map(|m| (m.source_chain.to_string(), m.message_id.to_string())).collect(), ..Default::default() };
+            upgrade_and_migrate_with(&env, &gw.id, &hints).map_err(|e| format!("setup: {}", e))?;
             cx.label("gateway_upgraded_and_migrated_between_approval_and_delivery");
         }
         // the gateway's owner has upgraded it and not yet completed the migration: whether deliveries are served in
